@@ -50,8 +50,8 @@ from mbv.harness import Check, MachineryError, main   # noqa: E402
 
 NPROC = 16
 TOYS = ('complete', 'incomplete', 'rolemix', 'stale')
-NRUN = {'quick': 4, 'thorough': 96}
-RUN_PARALLEL = {'quick': 4, 'thorough': 12}
+NRUN = {'quick': 16, 'thorough': 96}
+RUN_PARALLEL = {'quick': 16, 'thorough': 12}
 BIG = 300          # option products above this are thinned in quick
 LAYOUTS = ('multi', 'single', 'multi0')
 MANY = 32          # quick: more assignments than this -> dims rotate
@@ -337,6 +337,11 @@ def describe(t, r):
     for w in v['witnesses']:
         parts.append('%s (%s) array %r lacks %s' % (
             w['cls'], w['role'], w['array'], sorted(w['missing'])))
+    for w in v.get('strides', []):
+        parts.append('%s (%s) addresses %d values per particle of %s.%s, '
+                     'declared stride %d' % (w['cls'], w['role'], w['need'],
+                                             w['array'], w['prop'],
+                                             w['have']))
     if 'PerArray' in v['failed']:
         parts.append('per-array data (lengths, orig_idx) wrong in %s' %
                      sorted(v['badarrays']))
@@ -377,20 +382,53 @@ def judge(chk, cases_by_id, traces, verdicts, seen_viol):
                 setup=t['setup'], gen=t['gen'], run=t['run']))
 
 
+def role(n):
+    return 'fluid' if n.startswith('fluid') else \
+        'solid' if n.startswith('solid') else n
+
+
+def richness(t):
+    """How much of a scheme a configuration switches in, independent of
+    the array layout: distinct (equation class, stage, role of the
+    destination, roles of the sources) + stepper classes."""
+    return len(set((e['cls'], e['stage'], role(e['dest']),
+                    tuple(sorted(set(role(x) for x in e['sources']))))
+                   for e in t['eqs'])) + \
+        len(set(st['cls'] for st in t['steppers']))
+
+
 def pick_runs(chk, cases, traces, verdicts, n, rng, skip=()):
-    """Configurations for the compile + 3-step run: only ones whose Complete
-    clause TLC established and whose code was generated; seed-rotated over
-    the schemes, distinct abstractions."""
+    """Configurations for the compile + 3-step run, only ones whose clauses
+    TLC established and whose code was generated.  (1) every scheme, every
+    run: its RICHEST established configuration (nu > 0, solids, ghosts,
+    no-slip / inviscid variants ... whatever switches most equations in),
+    in the single layout (a fresh case when it was seen in another layout
+    only: it goes through TLC before it is run); (2) up to n in all:
+    seed-rotated ones of the single layout."""
     ok = {}
+    best = {}
     for c, t, r in zip(cases, traces, verdicts):
         if r['v']['failed'] or not t['gen']['ok'] or c['chooser'] \
-                or t['scheme'] in skip or c['layout'] != 'single':
+                or t['scheme'] in skip:
             continue
-        ok.setdefault(t['scheme'], []).append(c)
-    schemes = sorted(ok)
-    rng.shuffle(schemes)
+        key = (richness(t), c['layout'] == 'single', c['route'] == 'flip')
+        b = best.get(t['scheme'])
+        if b is None or key > b[0]:
+            best[t['scheme']] = (key, c)
+        if c['layout'] == 'single':
+            ok.setdefault(t['scheme'], []).append(c)
     out = []
     seen = set()
+    for sname in sorted(best):
+        c = dict(best[sname][1], mode='run')
+        if c['layout'] != 'single':
+            c['layout'] = 'single'
+            c['id'] = case_id(c)
+            c['fresh'] = True
+        seen.add(c['id'])
+        out.append(c)
+    schemes = sorted(ok)
+    rng.shuffle(schemes)
     i = 0
     while len(out) < n and schemes:
         sname = schemes[i % len(schemes)]
@@ -529,10 +567,27 @@ def check(chk):
                'SetUp' not in r['v']['failed']]
         runs = [dict(c, mode='run') for c in okc if want_run]
     rtraces, rverdicts = [], []
+    first = {t['id']: t for t in traces}
+    fresh = [dict(c, mode='gen') for c in runs
+             if c.get('fresh') and c['id'] not in first]
+    if fresh:
+        # richest configurations not yet seen in the single layout: TLC
+        # first, run only what it establishes
+        ftr = drive(chk, fresh, 'g2')
+        for t in ftr:
+            t['known_ids'] = known_ids
+        fver, st3 = validate(chk, ftr, 'v2')
+        judge(chk, {c['id']: c for c in fresh}, ftr, fver, seen)
+        bad = set(t['id'] for t, r in zip(ftr, fver)
+                  if r['v']['failed'] or not t['gen']['ok'])
+        runs = [c for c in runs if c['id'] not in bad]
+        first.update({t['id']: t for t in ftr})
+        traces = traces + ftr
+        verdicts = verdicts + fver
+        cases = cases + fresh
     if runs:
         got = drive(chk, runs, 'r', nproc=RUN_PARALLEL[chk.tier],
                     timeout=5400)
-        first = {t['id']: t for t in traces}
         for c, g in zip(runs, got):
             # the abstraction of the first pass, with the run outcome
             m = dict(first[c['id']])
